@@ -6,7 +6,7 @@ seed=${1:-1}; secs=${2:-}
 rc=0
 for p in $(python3 -c "import json;print(' '.join(c['property_id'] for c in json.load(open('MANIFEST.json'))['checks']))"); do
   extra=""; [ -n "$secs" ] && extra="-secs $secs"
-  VERIF_SEED=$seed bin/vdrive -prop $p -tier thorough -noevidence -replaydir replays-bg $extra 2>&1 | grep -v "^minimised" | tail -12 | cut -c1-400
+  VERIF_SEED=$seed bin/vdrive -verif "$(pwd)" -prop $p -tier thorough -noevidence -replaydir replays-bg $extra 2>&1 | grep -v "^minimised" | tail -12 | cut -c1-400
   [ ${PIPESTATUS[0]} -ne 0 ] && rc=1
 done
 exit $rc
